@@ -175,7 +175,9 @@ where
         let mut v = ValVisitor { val: 0 };
         values.record(&mut v);
         let flag = ctx.span(span).is_some();
-        self.push(LRec { kind: "on_record", id: span.into_u64(), val: v.val, flag, ..Default::default() });
+        let cur = ctx.lookup_current().map(|s| s.id().into_u64()).unwrap_or(0);
+        let id2 = ctx.span(span).and_then(|s| s.parent().map(|p| p.id().into_u64())).unwrap_or(0);
+        self.push(LRec { kind: "on_record", id: span.into_u64(), id2, val: v.val, flag, cur, ..Default::default() });
     }
     fn on_follows_from(&self, span: &Id, follows: &Id, _ctx: Context<'_, C>) {
         self.push(LRec { kind: "on_follows_from", id: span.into_u64(), id2: follows.into_u64(), ..Default::default() });
@@ -220,6 +222,7 @@ where
     }
     fn on_close(&self, id: Id, ctx: Context<'_, C>) {
         let mut r = LRec { kind: "on_close", id: id.into_u64(), ..Default::default() };
+        r.cur = ctx.lookup_current().map(|s| s.id().into_u64()).unwrap_or(0);
         match ctx.span(&id) {
             Some(span) => {
                 r.flag = true;
